@@ -39,7 +39,7 @@ const char *SIG_BODYLESS_BODY = "C16/bodyless-status-with-body";
 const char *SIG_BAD_CHUNK_STALL = "C16/bad-chunk-size-stalls";
 
 constexpr int kBurstWaitMs = 10000; // B: a response to a 0-30 ms handler normally arrives within ~50 ms
-constexpr std::size_t kMinFirstWrite = 8 * 1024;
+constexpr std::size_t kMinFirstWrite = 4000; // below the smallest send buffer the kernel ever configures (tcp_wmem[0] = 4096)
 
 enum class Kind
 {
@@ -437,14 +437,25 @@ struct Runner
     srv.onPost("/w/*", h);
     srv.onPatch("/w/*", h);
     if (plan.defaultHandler) srv.setDefaultHandler(h);
+    auto before = listeningSockets();
     srv.start();
-    auto ls = listeningSockets();
-    if (ls.size() != 1)
+    // HttpServer has no getter for the port it bound with port 0: take the listening socket that
+    // appeared with start()
+    std::vector<std::pair<int, std::uint16_t>> fresh;
+    for (auto &l : listeningSockets())
     {
-      c.fail("harness/listener-not-found", pbt::Fmt() << "expected one listening socket, found " << ls.size());
+      bool old = false;
+      for (auto &b : before)
+        if (b.first == l.first && b.second == l.second) old = true;
+      if (!old) fresh.push_back(l);
+    }
+    if (fresh.size() != 1)
+    {
+      c.inconclusive("could not identify the server's listening socket");
+      srv.stop();
       return false;
     }
-    port = ls[0].second;
+    port = fresh[0].second;
     std::vector<std::thread> th;
     for (std::size_t ci = 0; ci < plan.conns.size(); ++ci) th.emplace_back([this, ci] { runConn(ci); });
     for (auto &x : th) x.join();
@@ -932,7 +943,8 @@ Item handlerItem(const std::string &tok, const ReqSpec &rs, const Behaviour &b)
   {
     it.checkBody = false; // bodyless by status
   }
-  if (rs.hasBody && !rs.chunked && b.mode != ThrowBeforeEcho)
+  // (chunked bodies reach the handler decoded since /repo fa53c0e..59502df)
+  if (rs.hasBody && b.mode != ThrowBeforeEcho)
   {
     it.expectLen = true;
     it.reqBodyLen = rs.body.size();
